@@ -170,6 +170,7 @@ func Main(t *testing.T) {
 	if worldName == "" {
 		t.Skip("VERIF_WORLD not set; worlds: " + strings.Join(WorldNames(), ","))
 	}
+	pinProtoRand(worldName)
 	w := GetWorld(worldName)
 	if w == nil {
 		t.Fatalf("unknown world %q (have %v)", worldName, WorldNames())
